@@ -52,7 +52,9 @@ RTOL_SIM = 1e-9
 KINDS = ["rt-books", "rt-books", "rt-framework", "binary", "stateful", "stateful", "stateful", "stateful", "calib"]
 SIG_RT = [None, 0.0, "pos", "pos"]
 SIG_ZERO = [None, 0.0]
-PROFILE = {"max_steps": 24, "max_ord": 3, "extreme": 0.1, "p_transfer": 0.6, "p_interaction": 0.4, "p_yfactor": 0.4, "p_timed_yfactor": 0.2}
+# (parameter sets keep the default interpolation method: the per-parameter method is a private, discouraged attribute that no spreadsheet stores,
+# so it is not "visible data" in the sense of C16)
+PROFILE = {"p_stepped_interpolation": 0.0, "max_steps": 24, "max_ord": 3, "extreme": 0.1, "p_transfer": 0.6, "p_interaction": 0.4, "p_yfactor": 0.4, "p_timed_yfactor": 0.2}
 LIB_QUICK = ["tb_simple", "udt", "usdt", "hypertension", "hiv", "diabetes", "cervicalcancer", "service", "dt", "udt_dyn", "hiv_dyn", "tb_simple_dyn", "hypertension_dyn"]  # everything that loads here except tb (8 s)
 LIB_THOROUGH = ["tb_simple", "udt", "usdt", "hypertension", "hiv", "tb", "diabetes", "cervicalcancer", "service", "dt", "udt_dyn", "hiv_dyn", "tb_simple_dyn", "hypertension_dyn"]
 
